@@ -86,7 +86,7 @@ def gen_case(rng, tier):
     b = [0, *cuts, n]
     cuts2 = sorted(rng.sample(range(0, n + 1), rng.randint(0, min(3, n))))
     b2 = [0, *cuts2, n]
-    return dict(col=col, kind=kind, kcont=kcont, vdt=vdt, raw=raw, nulls=nulls, vcont=vcont, op=op,
+    return dict(warm=rng.choice([None, None, None] + api.WARM_OPS), col=col, kind=kind, kcont=kcont, vdt=vdt, raw=raw, nulls=nulls, vcont=vcont, op=op,
                 key_chunks=[b[i + 1] - b[i] for i in range(len(b) - 1)], val_chunks=[x for x in [b2[i + 1] - b2[i] for i in range(len(b2) - 1)] if x] or [n])
 
 
@@ -189,6 +189,7 @@ def run_case(GroupBy, c):
         from .c02 import build_key
         key = build_key(c["col"], c["kind"], c["kcont"], c["key_chunks"])
         gb = GroupBy(key)
+        api.warm(gb, c.get("warm"), len(c["col"]))          # the grouping may have been used before
         v = make_values(c, c["vcont"])
         out = call(gb, op, v)
         got = canon(out, c["kind"], row_aligned)
